@@ -9,7 +9,11 @@ Mirrored Go code:
 * the closure `pullCompareSend` inside `syncer.run` and the `select` loop of `run`
   (ticker ⇒ pull-compare-send, watch response ⇒ cancelled: restart watcher, no pull /
   progress-notify: ignored / otherwise pull-compare-send; `<-s.done` ends the trace);
-* the four `send` closures of `Sync`, `SyncRaw`, `SyncPrefix`, `SyncRawPrefix`.
+* the four `send` closures of `Sync`, `SyncRaw`, `SyncPrefix`, `SyncRawPrefix`, and the blocking
+  send into the 10-slot channel with its consumer (`Chan`, `cstep`, `crun`).
+
+`isKeyValueEqual`, `isDataEqual`, `pull`, `pullCompareSend` and the four send closures are tied by
+translation (`Proofs/SyncerIR.lean`: `<fn>_regenerated_from_source`).
 
 A Go `map[string]*mvccpb.KeyValue` is an association list with pairwise distinct keys
 (`Data`); a `*mvccpb.KeyValue` is `Option KV` (`none` = nil pointer) and only the two fields the
@@ -201,5 +205,84 @@ def sendSyncPrefix : Data → Option (List (String × String))
 
 /-- `SyncRawPrefix(prefix)`: a shallow copy of the map. -/
 def sendSyncRawPrefix (data : Data) : Data := data.map fun e => (e.1, e.2)
+
+/-! ### Delivery: the 10-slot channel between `send` and the consumer
+
+`send` (the `fn` closures of `Sync*`) is an unconditional, blocking `ch <- x` into a channel of
+capacity 10. While the `run` goroutine is blocked in that send (`pending`), it processes nothing:
+ticks are dropped by the ticker, watch responses wait in their own channel. `data` has already been
+assigned when the send blocks — which is only sound because the send cannot be abandoned. -/
+
+def chanCap : Nat := 10
+
+structure Chan where
+  /-- buffered values, oldest first -/
+  buf : List Data
+  /-- the value of a blocked `ch <- x` (the buffer is full) -/
+  pending : Option Data
+  /-- what the consumer has received so far, oldest first -/
+  recvd : List Data
+
+def Chan.empty : Chan := { buf := [], pending := none, recvd := [] }
+
+/-- `ch <- d`: into the buffer, or blocked when it is full. -/
+def Chan.send (c : Chan) (d : Data) : Chan :=
+  if c.buf.length < chanCap then { c with buf := c.buf ++ [d] } else { c with pending := some d }
+
+/-- the consumer receives one value (no-op on an empty channel); a blocked send completes. -/
+def Chan.consume (c : Chan) : Chan :=
+  match c.buf with
+  | [] => c
+  | d :: rest =>
+    match c.pending with
+    | none => { c with buf := rest, recvd := c.recvd ++ [d] }
+    | some p => { buf := rest ++ [p], pending := none, recvd := c.recvd ++ [d] }
+
+/-- Events of the system syncer + channel + consumer. -/
+inductive CEv
+  /-- a store write or an event of the `select` loop -/
+  | env (e : Ev)
+  /-- the consumer takes one value off the channel -/
+  | consume
+deriving Repr, DecidableEq
+
+/-- What a step handed to `send` (`step` calls `send` at most once). -/
+def newlySent (st st' : St) : Option Data :=
+  if st'.sentRev.length > st.sentRev.length then st'.sentRev.head?.map Prod.snd else none
+
+/-- One step of the combined system. A loop event that arrives while `run` is blocked in a send is
+not processed (`p` unchanged): the tick is lost / the watch response stays queued. -/
+def cstep (S : Nat → Data) (p : St × Chan) : CEv → St × Chan
+  | .consume => (p.1, p.2.consume)
+  | .env .write => (step S p.1 .write, p.2)
+  | .env e =>
+    if p.2.pending.isSome then p
+    else
+      let st' := step S p.1 e
+      (st', match newlySent p.1 st' with
+            | none => p.2
+            | some d => p.2.send d)
+
+def cloop (S : Nat → Data) : St × Chan → List CEv → St × Chan
+  | p, [] => p
+  | p, e :: es => cloop S (cstep S p e) es
+
+/-- The events `run` actually processed (all writes; loop events only while not blocked). -/
+def effective (S : Nat → Data) : St × Chan → List CEv → List Ev
+  | _, [] => []
+  | p, .consume :: es => effective S (cstep S p .consume) es
+  | p, .env e :: es =>
+    if e != .write && p.2.pending.isSome then effective S (cstep S p (.env e)) es
+    else e :: effective S (cstep S p (.env e)) es
+
+/-- `run` with its channel: the initial `pullCompareSend()` may already send one value. -/
+def cstart (S : Nat → Data) (pre : Nat) (r0 : Option Nat) : St × Chan :=
+  let st := pullCompareSend S (St.start pre) r0
+  (st, match newlySent (St.start pre) st with
+       | none => Chan.empty
+       | some d => Chan.empty.send d)
+
+def crun (S : Nat → Data) (pre : Nat) (r0 : Option Nat) (evs : List CEv) : St × Chan :=
+  cloop S (cstart S pre r0) evs
 
 end EgVerif.Syncer
